@@ -67,14 +67,16 @@ Proof.
 Qed.
 
 Theorem db_merge_sync d k order d' k' e evs :
-  SyncInv d -> db_merge d k order = (d', k', e, evs) -> SyncInv d' /\ MergeFlushed k'.
+  InvF d -> SyncInv d -> db_merge d k order = (d', k', e, evs) -> SyncInv d' /\ MergeFlushed k'.
 Proof.
-  intros HS Hm. unfold db_merge in Hm.
+  intros HF HS Hm. unfold db_merge in Hm.
   destruct (db_rotate d) as [d1 ev1] eqn:Hrot.
+  destruct (db_rotate_spec d d1 ev1 HF Hrot) as (HF1 & _).
   destruct (db_rotate_sync _ _ _ (proj2 (proj2 HS)) Hrot) as (HS1 & _ & _).
   destruct (h_open (c_io (d_cfg d)) (MData 0) false lf_empty) as [a0 ev3].
   destruct (hf_open_new (c_io (d_cfg d))) as [h0 ev4].
   destruct (merge_files (d_cfg d) d1 order (d_active_id d1) (mkMs 0 a0 [] h0)) as [[d2 res] ev5] eqn:Hmf.
+  destruct (merge_files_spec _ _ _ _ _ _ _ _ HF1 Hmf) as (HF2 & _).
   pose proof (merge_files_sync _ _ _ _ _ _ _ _ HS1 Hmf) as HS2.
   destruct res as [m|er m].
   - destruct (hf_close (c_io (d_cfg d)) (ms_hint m)) as [h1 ev6].
@@ -83,7 +85,9 @@ Proof.
     destruct (h_close (c_io (d_cfg d)) (MData (ms_active_id m)) (ms_active m)) as [a1 ev7]. cbn [fst] in *.
     pose proof (ms_close_older_closed (c_io (d_cfg d)) (ms_older m)) as Hcl.
     destruct (ms_close_older (c_io (d_cfg d)) (ms_older m)) as [o1 ev8]. cbn [fst] in Hcl.
-    injection Hm as <- <- _ _. split; [exact HS2|]. unfold MergeFlushed. cbn [k_merge m_files]. intros _.
+    destruct (db_sync d2) as [d3 evS] eqn:Hsy.
+    pose proof (db_sync_sync _ _ _ HF2 HS2 Hsy) as HS3.
+    injection Hm as <- <- _ _. split; [exact HS3|]. unfold MergeFlushed. cbn [k_merge m_files]. intros _.
     apply older_set_closed; [exact Hcl|]. split; [exact Hfa|cbn [snd]; congruence].
   - injection Hm as <- <- _ _. split; [exact HS2|]. unfold MergeFlushed. cbn [k_merge m_marker].
     intros (mid & Hc & _). discriminate.
@@ -233,7 +237,7 @@ Proof.
   1-8: (eapply step_sync_plain; [|exact HG|exact HSG|exact Hst]; (exact Hok || exact I)).
   - (* Merge *)
     cbn [step] in Hst. destruct (db_merge d k order) as [[[d1 k1] e] ev] eqn:Hm. injection Hst as <- <- _ _.
-    exact (db_merge_sync d k order d1 k1 e ev HS Hm).
+    exact (db_merge_sync d k order d1 k1 e ev (proj1 (proj1 (proj1 HL))) HS Hm).
   - (* Restart: the adopting Open installs closed files *)
     destruct (G_restart d k M c d' k' r evs HG Hst) as [[HL' _] _].
     cbn [step] in Hst. destruct (db_close d k) as [k1 ev1] eqn:Hc.
